@@ -86,7 +86,36 @@ def convert(events, label):
                 out.append(dict(base, op="replica", via="recv", c=cid(e["c"]), b=-1, cls=-1, corrupt=0, exp=e["exp"], ok=e["ok"], dl=e["dl"]))
             elif op == "cleanup":
                 out.append(dict(base, op="tick", cleaned=True, healthy=True, a_local=0, a_loc=0, a_contacts=0))
+    return with_hints(out)
+
+
+LOOKAHEAD_MS = 500
+
+
+def with_hints(events):
+    """Hooks fire after the state change and outside the node's lock, so in a multi-threaded run a projection taken by thread A
+    can already contain what thread B just did although B's own event is logged a moment later. For every accepted arrival the
+    converter therefore announces its bound (min(expiry, arrival + max), or the store's own lifetimes) to the events of the same
+    node stream that precede it by at most LOOKAHEAD_MS."""
+    out = []
+    n = len(events)
+    for i, e in enumerate(events):
+        if e["op"] != "reset":
+            j = i + 1
+            while j < n and events[j]["op"] != "reset" and events[j]["t"] - e["t"] <= LOOKAHEAD_MS:
+                f = events[j]
+                if f["op"] == "store":
+                    out.append({"op": "hint", "c": f["c"], "bd": max(f["dl"], f["mexp"], f["sexp"], f["aexp"])})
+                elif f["op"] in ("manifest", "replica") and f.get("ok") and f["c"] >= 0:
+                    out.append({"op": "hint", "c": f["c"], "bd": min(f["exp"], f["t"] + cur_max[0])})
+                j += 1
+        else:
+            cur_max[0] = e["max"]
+        out.append(e)
     return out
+
+
+cur_max = [0]
 
 
 def run(chk, prefix_filter=("C02", "C03", "C05")):
@@ -117,6 +146,8 @@ def run(chk, prefix_filter=("C02", "C03", "C05")):
     chk.add_traces(nb, len(all_events), res, "repository tests under life-cycle tracing (%d test programs)" % ran)
     chk.cov["live_test_programs"] = ran
     for e in all_events:
+        if e["op"] == "hint":
+            continue
         chk.nontrivial(["live", e["op"], e.get("via"), e.get("ok"), len(e["proj"]["chunks"]), len(e["proj"]["pend"])])
     vlib.report_trace_violations(chk, res, all_events, label="repository's own tests, traced")
     log("[live] %d test programs, %d node streams, %d events, %d clause failures" % (ran, nb, len(all_events), len(res["viol"])))
